@@ -1,6 +1,7 @@
 """Pretty-print functions."""
 
 from copy import copy
+import re
 
 from kernel.type import Type
 from kernel import term
@@ -355,9 +356,9 @@ def get_ast_term(t):
                 return Set([helper(item, bd_vars) for item in items], t.get_type())
 
         # Chars and Strings
-        elif string.is_char(t):
+        elif string.is_char(t) and re.fullmatch(r"[_A-Za-z0-9]", string.dest_char(t)):
             return Char(string.dest_char(t))
-        elif string.is_string(t):
+        elif string.is_string(t) and re.fullmatch(r"[_A-Za-z][_A-Za-z0-9]*", string.dest_string(t)):
             return String(string.dest_string(t))
 
         # Intervals
